@@ -36,17 +36,17 @@ def gen_W(rng, maxops=20):
         if r < 0.22:
             ops.append("get:%d" % rng.randint(0, hi)); gets += 1
         elif r < 0.36:
-            i = rng.randint(0, hi - 1 if fixed else hi + 1)
+            i = rng.randint(0, hi + 1)
             ops.append("set:%d:%d" % (i, rng.randint(-9, 99))); ln = ln if fixed else max(ln, i + 1)
         elif r < 0.40:
-            i = rng.randint(0, hi - 1 if fixed else hi + 1)
+            i = rng.randint(0, hi + 1)
             ops.append("bad:%d" % i); ln = ln if fixed else max(ln, i + 1)
         elif r < 0.47:
             ops.append("del:%d" % rng.randint(0, hi))
         elif r < 0.56:
             m = rng.randint(0, hi + 2); ops.append("len:%d" % m); ln = ln if fixed else m
-        elif r < 0.62 and ln >= 1:
-            ops.append("swap:%d:%d" % (rng.randint(0, ln - 1), rng.randint(0, ln - 1)))
+        elif r < 0.62:
+            ops.append("swap:%d:%d" % (rng.randint(0, ln + 1), rng.randint(0, ln + 1)))   # also beyond the length (fix 60ad8ae)
         elif r < 0.74 and gets:
             ops.append("ww:%d:%d" % (rng.randint(0, gets), rng.randint(100, 199)))
         elif r < 0.80:
@@ -59,8 +59,8 @@ def gen_W(rng, maxops=20):
             ops.append("nop:%d" % rng.randint(0, 2))
         elif r < 0.92:
             ops.append("sort")
-        elif r < 0.95 and not fixed:
-            ops.append("push:%d" % rng.randint(400, 499)); ln += 1
+        elif r < 0.95:
+            ops.append("push:%d" % rng.randint(400, 499)); ln += 0 if fixed else 1
         elif r < 0.98:
             ops.append("pop"); gets += 1; ln = max(0, ln - (0 if fixed else 1))
         elif not fixed:
@@ -128,9 +128,9 @@ def gen_shapes():
 
 
 P_TARGETS = ["sliceS", "sliceInt", "sliceIface", "sliceIfaceVal", "sliceSVal", "arrS", "arrSVal", "mapStrInt", "nilMap", "ptrNilMap",
-             "mapIntS", "zoo", "zooL", "nested", "nilFunc"]
+             "mapIntS", "zoo", "zooL", "nested", "nilFunc", "mapSimple", "zooVal"]
 P_OPS = ["get", "getf", "set", "setf", "del", "def", "push", "pop", "shift", "unshift", "splice", "sort", "sortcmp", "sortshrink", "sortgrow",
-         "reverse", "fill", "copyWithin", "len", "forin", "json", "spread", "keys", "freeze", "pe", "proto", "sym", "neg", "goappend", "goshrink", "call"]
+         "reverse", "fill", "copyWithin", "len", "forin", "json", "spread", "keys", "freeze", "pe", "proto", "sym", "neg", "goappend", "goshrink", "call", "defnov", "seal"]
 
 
 def gen_P(rng):
@@ -140,6 +140,25 @@ def gen_P(rng):
         o = rng.choice(P_OPS)
         ops.append("%s:%d:%d" % (o, rng.randint(0, 7), rng.randint(0, 7)))
     return "P %s %s" % (t, " ".join(ops))
+
+
+def gen_X(rng):
+    n = rng.randint(1, 7)
+    toks = []
+    for i in range(n):
+        arr = rng.random() < 0.4
+        if arr:
+            keys = list(range(rng.randint(0, 4)))
+        else:
+            keys = sorted(rng.sample(range(10), rng.randint(0, 4)))
+        fs = []
+        for k in keys:
+            if rng.random() < 0.55:
+                fs.append("%d=r%d" % (k, rng.randint(0, n - 1)))
+            else:
+                fs.append("%d=%d" % (k, rng.randint(-9, 99)))
+        toks.append(("a:" if arr else "o:") + ",".join(fs))
+    return "X " + " ".join(toks)
 
 
 E_CASES = [
@@ -190,12 +209,13 @@ def spec_W(line, observed=None):
             h = get(int(p[1])); g = "g=%s " % ("-" if h is None else h)
         elif o in ("set", "bad", "push"):
             i = len(sl) if o == "push" else int(p[1])
-            if i >= len(sl):
-                if fixed:
-                    out.append("NOPANIC"); continue          # must not crash; nothing else promised
-                sl.extend([0] * (i + 1 - len(sl))); cap = max(cap, len(sl))
-            if o != "bad":
-                detach(i); sl[i] = int(p[-1])
+            if i >= len(sl) and fixed:
+                pass                                  # a Go array cannot grow: TypeError, nothing changes (fix 1c31366)
+            else:
+                if i >= len(sl):
+                    sl.extend([0] * (i + 1 - len(sl))); cap = max(cap, len(sl))
+                if o != "bad":
+                    detach(i); sl[i] = int(p[-1])
         elif o == "del":
             i = int(p[1])
             if i < len(sl): detach(i); sl[i] = 0
@@ -208,11 +228,12 @@ def spec_W(line, observed=None):
         elif o == "swap":
             i, j = int(p[1]), int(p[2])
             if i >= len(sl) or j >= len(sl):
-                out.append("NOPANIC"); continue      # raw hook call out of range: not a script operation
-            sl[i], sl[j] = sl[j], sl[i]
-            hi, hj = at.pop(i, None), at.pop(j, None)
-            if hi is not None: at[j] = hi; H[hi] = ["att", j]
-            if hj is not None: at[i] = hj; H[hj] = ["att", i]
+                pass                                  # the comparator shrank the slice: the swap is ignored (fix 60ad8ae)
+            else:
+                sl[i], sl[j] = sl[j], sl[i]
+                hi, hj = at.pop(i, None), at.pop(j, None)
+                if hi is not None: at[j] = hi; H[hi] = ["att", j]
+                if hj is not None: at[i] = hj; H[hj] = ["att", i]
         elif o == "ww":
             w = int(p[1])
             if w < len(H):
@@ -230,7 +251,12 @@ def spec_W(line, observed=None):
                 room = len(sl) < cap
             if not fixed and room: sl.append(int(p[1]))
         elif o == "gr":
-            if not fixed and len(sl) <= int(p[1]): cap = int(p[1])
+            # A Go-side re-allocation (append beyond capacity): an element wrapper is "a reference to the literal value"
+            # (ToValue doc), i.e. like &a[i] in Go it keeps referring to the OLD backing array: every handed-out wrapper is
+            # detached with its current value.  What must stay live is the container: a[i] evaluated afterwards.
+            if not fixed and len(sl) <= int(p[1]):
+                cap = int(p[1])
+                for i in list(at): detach(i)
         elif o == "sort":
             order = sorted(range(len(sl)), key=lambda k: sl[k])      # stable
             sl = [sl[k] for k in order]
@@ -256,7 +282,9 @@ def strip_c(rec):
 
 # ------------------------------------------------------------------------------------------------ running
 
-def run_sharded(ctx, exe, lines, shards=12, timeout=900):
+def run_sharded(ctx, exe, lines, shards=12, timeout=1800):
+    """Feed `lines` to `shards` harness processes.  A chunk that times out or dies is retried once line by line group
+    (smaller chunks, longer timeout); what still has no answer is INCONCLUSIVE (never a violation)."""
     if not lines:
         return []
     n = max(1, min(shards, len(lines) // 50 + 1))
@@ -267,7 +295,16 @@ def run_sharded(ctx, exe, lines, shards=12, timeout=900):
     for k, (rc, o, err) in enumerate(res):
         idx = list(range(k, len(lines), n))
         if len(o) != len(idx):
-            o = o + ["HARNESS-DIED rc=%s %s" % (rc, err[-200:].replace("\n", " "))] * (len(idx) - len(o))
+            # retry the unanswered tail in small pieces
+            rest = idx[len(o):]
+            for a in range(0, len(rest), 20):
+                part = rest[a:a + 20]
+                rc2, o2, err2 = ctx.run_lines([exe], [lines[i] for i in part], timeout=timeout)
+                if len(o2) < len(part):
+                    # find the single line that kills / stalls the harness: answer what we can
+                    o2 = o2 + ["INCONCLUSIVE rc=%s" % rc2] * (len(part) - len(o2))
+                    ctx.stats["inconclusive"] = ctx.stats.get("inconclusive", 0) + 1
+                o += o2
         for i, l in zip(idx, o):
             out[i] = l
     return out
@@ -280,15 +317,9 @@ def model_lines(lines):
 def classify_P(line, res):
     ops = [t.split(":")[0] for t in line.split()[2:]]
     target = line.split()[1]
-    if "nil map" in res:
-        return "nil-gomap-assignment"
-    if "call of nil function" in res:
-        return "nil-gofunc-call"
-    if "array index out of range" in res and target.startswith("arr"):
-        return "goarray-store-out-of-range"
-    if "index out of range" in res and any(o in ("sortshrink",) for o in ops):
-        return "sort-goslice-comparator-shrinks"
     m = re.search(r"op=(\w+)", res)
+    if m and m.group(1) in ("defnov", "seal", "freeze") and "nil pointer dereference" in res and target in ("mapStrInt", "mapIntS", "nilMap", "ptrNilMap"):
+        return "gomap-reflect-define-without-value"
     return "panic:%s:%s:%s" % (target, m.group(1) if m else "?", re.sub(r"[^a-z ]", "", res.split("msg=")[-1].lower())[:40].strip().replace(" ", "-"))
 
 
@@ -307,20 +338,15 @@ def check_W(ctx, h, line, hres, mres, stats):
             has_gr_before = True
         got = hrec[k]
         want = spec[k] if k < len(spec) else None
-        if o == "swap" and want == "NOPANIC":
+        if got.startswith("INCONCLUSIVE"):
             break
-        if got.startswith("PANIC") or got.startswith("HARNESS-DIED"):
+        if got.startswith("PANIC"):
             fixed = line.split()[1] == "1"
-            if fixed and o in ("set", "bad", "push"):
-                sig = "goarray-store-out-of-range"
-            elif o == "swap":
-                sig = "wrapcache-panic:swap"
-            else:
-                sig = "wrapcache-panic:%s%s" % (o, ":after-go-realloc" if has_gr_before else "")
+            sig = "wrapcache-panic:%s:%s%s" % ("array" if fixed else "slice", o, ":after-go-realloc" if has_gr_before else "")
             viol.append((sig, "Go panic escapes script operation %s on a wrapped Go %s" % (tok, "array" if fixed else "slice"), k))
             break
-        if want == "NOPANIC" or want is None:
-            break  # nothing more is promised after an out-of-range store on an array
+        if want is None:
+            break
         if strip_c(got) != want:
             sig = "stale-elem-wrapper-after-go-realloc" if has_gr_before else "wrapcache-live-view:%s" % o
             viol.append((sig, "wrapped slice is no longer a live view / snapshot wrong after %s (spec %s, got %s)" % (tok, want, strip_c(got)), k))
@@ -375,7 +401,8 @@ def main(ctx):
     E = [c[0] for c in E_CASES]
 
     # ---------------- correspondence: mechanism model vs implementation
-    both = W + NF + Sx
+    X = [l for l in corpus if l.startswith("X ")] + [gen_X(rng) for _ in range(400 if quick else 20000)]
+    both = W + NF + Sx + X
     hres = run_sharded(ctx, h, both)
     if model_ok:
         rc, mres, err = ctx.run_lines([model], model_lines(both), timeout=900)
@@ -386,12 +413,12 @@ def main(ctx):
         mres = [None] * len(both)
     ctx.log("correspondence streams done")
     ctx.count(len(both))
-    groups = {"W": [], "N": [], "F": [], "G": [], "S": []}
+    groups = {"W": [], "N": [], "F": [], "G": [], "S": [], "X": []}
     for i, l in enumerate(both):
         groups[l[0]].append(i)
     opmix, lens = {}, {}
     for gname, idxs in groups.items():
-        bad = [i for i in idxs if mres[i] is not None and hres[i] != mres[i]]
+        bad = [i for i in idxs if mres[i] is not None and hres[i] != mres[i] and not hres[i].startswith("INCONCLUSIVE")]
         if model_ok:
             detail = "%d cases" % len(idxs)
             if bad:
@@ -432,6 +459,7 @@ def main(ctx):
                 report(sig, summary, {"kind": "history", "lines": [l2], "expected": spec_W(l2), "observed": o})
     # numeric: exact part of the table is a property-level statement
     for i in groups["N"]:
+        if hres[i].startswith("INCONCLUSIVE"): continue
         _, k, v = both[i].split(); v = int(v)
         ctx.nontriv(both[i])
         m = re.match(r"(?:i64|f64 intval) (-?\d+) to=(-?\d+)$", hres[i])
@@ -444,16 +472,28 @@ def main(ctx):
         for i in groups[gname]:
             ctx.nontriv(both[i])
             cls = both[i][2:]
+            if hres[i].startswith("INCONCLUSIVE"): continue
             if not hres[i].endswith(" to=" + cls):
                 report("float-roundtrip", "ExportTo own float type of %s gives %s" % (cls, hres[i]), {"kind": "input", "lines": [both[i]], "observed": [hres[i]]})
     wraps = {}
     for i in groups["S"]:
         ctx.nontriv(both[i])
         wraps[hres[i]] = wraps.get(hres[i], 0) + 1
+        if hres[i].startswith("INCONCLUSIVE"): continue
         if hres[i].startswith("PANIC") or (mres[i] is not None and hres[i] != mres[i]):
             report("shape-roundtrip:" + " ".join(t for t in both[i].split()[1:] if not t.startswith("v=")),
                    "ToValue/Export of shape %s: implementation %s, documented table %s" % (both[i], hres[i], mres[i]),
                    {"kind": "input", "lines": [both[i]], "expected": [mres[i]], "observed": [hres[i]]})
+    xshared = 0
+    for i in groups["X"]:
+        ctx.nontriv(both[i])
+        if re.search(r"#(\d+)(?![\[{\d])", hres[i]):
+            xshared += 1      # at least one back-reference: sharing or a cycle was exercised
+        if hres[i].startswith("INCONCLUSIVE"): continue
+        if hres[i].startswith("PANIC") or (mres[i] is not None and hres[i] != mres[i]):
+            report("export-sharing:" + re.sub(r"\W+", "-", both[i])[:50], "Export of the script graph %s: implementation %s, isomorphic image %s" % (both[i], hres[i], mres[i]),
+                   {"kind": "input", "lines": [both[i]], "expected": [mres[i]], "observed": [hres[i]]})
+    ctx.stats["X_graphs_with_sharing_or_cycle"] = xshared
     ctx.stats["wrap_rel_seen"] = wraps
     ctx.stats["W_opmix"] = opmix
     ctx.stats["W_history_lengths"] = dict(sorted(lens.items()))
@@ -463,7 +503,7 @@ def main(ctx):
     tres = run_sharded(ctx, h, T)
     ctx.count(len(T))
     tkinds = {}
-    tbad = [i for i, r in enumerate(tres) if not r.startswith("ok")]
+    tbad = [i for i, r in enumerate(tres) if not r.startswith("ok") and not r.startswith("INCONCLUSIVE")]
     for i, r in enumerate(tres):
         if r.startswith("ok"):
             key = r.split(" rel=")[0]
@@ -472,9 +512,6 @@ def main(ctx):
     ctx.stats["T_kinds"] = dict(sorted(tkinds.items(), key=lambda kv: -kv[1])[:40])
     ctx.obligation("oracle:random-reflect-types-roundtrip", "correspondence", not tbad, "%d cases; %s" % (len(T), ("first failure: %s -> %s" % (T[tbad[0]], tres[tbad[0]][:400])) if tbad else "all ok"))
     for i in tbad[:3]:
-        if "call of nil function" in tres[i]:
-            report("nil-gofunc-call", "calling a wrapped nil Go func panics the host: %s" % tres[i][:300], {"kind": "input", "lines": [T[i]], "observed": [tres[i]]})
-            continue
         report("reflect-type-roundtrip:" + re.sub(r"[^A-Za-z]+", "-", tres[i].split(" type=")[0])[:50], "random Go type round trip: %s" % tres[i][:300],
                {"kind": "input", "lines": [T[i]], "observed": [tres[i]]})
 
@@ -486,7 +523,7 @@ def main(ctx):
         t = P[i].split()[1]
         ptargets[t] = ptargets.get(t, 0) + 1
         ctx.nontriv(P[i])
-        if r != "ok":
+        if r != "ok" and not r.startswith("INCONCLUSIVE"):
             sig0 = classify_P(P[i], r)
             if sig0 in found:
                 continue
@@ -510,8 +547,8 @@ def main(ctx):
     ctx.count(len(E))
     for (line, want), got in zip(E_CASES, eres):
         ctx.nontriv(line)
-        if got.startswith("PANIC") or got.startswith("HARNESS-DIED"):
-            sig = "arguments-exportType-mismatch" if ("arguments" in line and "not assignable to type map[string]interface" in got) else "exportTo-array-hole" if ("exportTo=[]" in got and ("[1,,3]" in line or ",," in line or "[,]" in line or "delete" in line or "sp[" in line)) else "export-panic:" + re.sub(r"\W+", "-", line)[:40]
+        if got.startswith("PANIC"):
+            sig = "export-panic:" + re.sub(r"\W+", "-", line)[:40]
             report(sig, "Go panic escapes Export/ExportTo of %s: %s" % (line[2:], got[:200]), {"kind": "input", "lines": [line], "observed": [got]})
         elif want is not None and got != want:
             report("export-sharing:" + re.sub(r"\W+", "-", line)[:40], "Export of %s loses sharing/cycles: got %s want %s" % (line[2:], got, want),
@@ -540,7 +577,7 @@ def replay(ctx, path):
     for l, x in zip(lines, o):
         print("input         :", l)
         print("implementation:", x)
-        if l[0] in "WNFGS" and os.path.exists(ctx.model_exe()):
+        if l[0] in "WNFGSX" and os.path.exists(ctx.model_exe()):
             rc2, m, _ = ctx.run_lines([ctx.model_exe()], model_lines([l]), timeout=60)
             print("mechanism model:", m[0] if m else "?")
         if l[0] == "W":
